@@ -659,6 +659,11 @@ func (p *prover) lin0(v ssa.Value) lin {
 				}
 			}
 			p.add(dfact{"", a, 1, "Index >= -1"})
+		case "slices.Index", "slices.IndexFunc":
+			if l := p.lenOf(x.Call.Args[0]); l.ok && l.neg == "" {
+				p.add(dfact{a, l.pos, l.c - 1, "Index < len"})
+			}
+			p.add(dfact{"", a, 1, "Index >= -1"})
 		}
 		return atomLin(a)
 	case *ssa.Extract:
